@@ -80,6 +80,7 @@ def FF (s : St) : Prop := s.ctx0 = false ∧ s.faulted = false ∧ s.stopped = f
 
 structure Exact (cfg : Cfg) (s : St) : Prop where
   cons : ∀ i, cnt i s = if i < s.cursor then 1 else 0
+  mapped : ∀ i, s.mapCalls.count i = s.wMap.count i + cntItems i s.wHold + cntItems i s.tgtChan + s.delivered.count i
   noErrSrc : Item.err ∉ s.srcChan
   noErrHold : Item.err ∉ s.wHold
   noErrTgt : Item.err ∉ s.tgtChan
@@ -94,25 +95,27 @@ theorem exact_step {cfg : Cfg} {s s' : St} {l : Label} (hb : Basic cfg s) (h : F
   intro hff
   obtain ⟨b1, b2, b3, b4, b5, b6, b7, b8, b9, b10, b11, b12, b13, b14, b15⟩ := hb
   step_cases hs <;> simp only [FF] at hff <;> (try (simp at hff; done)) <;>
-    (obtain ⟨e1, e2, e3, e4, e5, e6, e7, e8⟩ := h (by simpa [FF] using hff)) <;>
-    (constructor <;> (try intro i) <;> (try have hi := e1 i) <;> simp_all [cnt, inHand, cntItems_cons, St.ctx1] <;>
+    (obtain ⟨e1, e0, e2, e3, e4, e5, e6, e7, e8⟩ := h (by simpa [FF] using hff)) <;>
+    (constructor <;> (try intro i) <;> (try have hi := e1 i) <;> (try have hj := e0 i) <;> simp_all [cnt, inHand, cntItems_cons, St.ctx1] <;>
       grind [cntItems_erase, count_erase_add, Item.isVal, List.mem_of_mem_erase])
 
 
 /-- No element is duplicated or invented, under every schedule, fault and cancellation. -/
-def AtMostOnce (s : St) : Prop := ∀ i, cnt i s ≤ if i < s.cursor then 1 else 0
+structure AtMostOnce (s : St) : Prop where
+  le : ∀ i, cnt i s ≤ if i < s.cursor then 1 else 0
+  /-- the mapper is never invoked twice for an element, nor for an invented one -/
+  mapped : ∀ i, inHand i s.prod + cntItems i s.srcChan + s.mapCalls.count i ≤ if i < s.cursor then 1 else 0
 
 set_option maxHeartbeats 2000000 in
 theorem atMostOnce_step {cfg : Cfg} {s s' : St} {l : Label} (h : AtMostOnce s) (hs : step cfg s l = some s') :
     AtMostOnce s' := by
-  unfold AtMostOnce at *
-  intro i
-  have hi := h i
-  step_cases hs <;> simp_all [cnt, inHand, cntItems_cons] <;> grind [cntItems_erase, count_erase_add, Item.isVal]
+  obtain ⟨a1, a2⟩ := h
+  step_cases hs <;> (constructor <;> intro i <;> have hi := a1 i <;> have hj := a2 i <;>
+    simp_all [cnt, inHand, cntItems_cons] <;> grind [cntItems_erase, count_erase_add, Item.isVal])
 
 
 theorem atMostOnce {cfg : Cfg} {s : St} (hr : Reachable (sys cfg) s) : AtMostOnce s :=
-  invariant (sys := sys cfg) (P := AtMostOnce) (by intro i; simp [sys, init, cnt, inHand])
+  invariant (sys := sys cfg) (P := AtMostOnce) (by constructor <;> intro i <;> simp [sys, init, cnt, inHand])
     (fun _ _ _ h hs => atMostOnce_step h hs) s hr
 
 theorem exact {cfg : Cfg} {s : St} (hr : Reachable (sys cfg) s) : FF s → Exact cfg s := by
